@@ -246,3 +246,50 @@ func (r *verifChunkReader) Read(p []byte) (int, error) {
 
 // VerifFoldTable returns the byte folding table of the bitmap key matcher.
 func VerifFoldTable() [256]byte { return largeToSmallTable }
+
+// VerifPathNodes renders the node chain of a built Path: "n=<runes>", "i=<index>", "all", "d=<runes>"
+// joined by ';' (runes as decimal code points joined by '.').
+func VerifPathNodes(p *Path) string {
+	runes := func(s string) string {
+		out := ""
+		for i, r := range []rune(s) {
+			if i > 0 {
+				out += "."
+			}
+			out += fmt.Sprint(int(r))
+		}
+		return out
+	}
+	var parts []string
+	for n := p.node; n != nil; {
+		switch v := n.(type) {
+		case *PathSelectorNode:
+			parts = append(parts, "n="+runes(v.selector))
+			n = v.child
+		case *PathIndexNode:
+			parts = append(parts, fmt.Sprintf("i=%d", v.selector))
+			n = v.child
+		case *PathIndexAllNode:
+			parts = append(parts, "all")
+			n = v.child
+		case *PathRecursiveNode:
+			parts = append(parts, "d="+runes(v.selector))
+			if v.chained {
+				n = v.child
+			} else {
+				n = nil
+			}
+		default:
+			parts = append(parts, "?")
+			n = nil
+		}
+	}
+	out := ""
+	for i, s := range parts {
+		if i > 0 {
+			out += ";"
+		}
+		out += s
+	}
+	return out
+}
